@@ -14,6 +14,7 @@ import Mfi.Gen.Oracles
 import Mfi.Model.Integr
 import Mfi.Lemmas.ConstL
 import Mfi.Lemmas.WorldL
+import Mfi.Lemmas.WorldRecvL
 
 namespace Mfi.Props.C09
 open Mfi Mfi.Fx Mfi.Risk Mfi.Gen
@@ -547,6 +548,24 @@ theorem world_receivership_withdraw_needs_positive_price {c : Ctx} {amt : Int} {
     whole portfolio with the engine's own fail-closed rules: C04) -/
 theorem world_plain_withdraw_fetches_no_price {c : Ctx} (hr : flag c ACCOUNT_IN_RECEIVERSHIP = false) : withdrawPrice c = .ok 0 := by
   unfold withdrawPrice; rw [hr]; rfl
+
+/-- **world_tx_every_seizure_is_priced**: in a COMMITTED transaction of the world machine (begun with no account in receivership),
+    every withdrawal from an account that was in receivership when it ran — i.e. every seizure, by a liquidator or by the risk
+    admin — sits strictly inside that account's own bracket AND was made at a defined, strictly positive real-time low-biased price
+    of the withdrawn bank. No collateral is seized at a zero, negative or unusable price, in any transaction. -/
+theorem world_tx_every_seizure_is_priced {w w' : WState} {tx : List TOp} (h : w.runTx tx = some w')
+    (h0 : ∀ (k : Nat) (a : AcctV), w.accts[k]? = some a → inRecv a = false)
+    {i ai bi signer : Nat} {amount vault : Int} {all : Bool} (hi : tx[i]? = some (.ix (.withdraw ai bi signer amount all vault))) :
+    ∃ (wi : WState) (a : AcctV) (b : WBank), wi.accts[ai]? = some a ∧ wi.banks[bi]? = some b ∧
+      (inRecv a = true →
+        (AnyBracket tx ai ∧ 0 < i ∧ i + 1 < tx.length) ∧
+        ∃ rb p, (wi.ctx a b signer b.v.liquidityVault vault).risk.find? (·.key == b.v.key) = some rb ∧
+          Mfi.Risk.priceOfType rb.feed .realTime (some .low) rb.r.maxConf = .ok p ∧ 0 < p) := by
+  obtain ⟨wi, a, b, o, ha, hb, ho, hbr⟩ := tx_withdraw_in_bracket h h0 hi
+  refine ⟨wi, a, b, ha, hb, ?_⟩
+  intro hr
+  refine ⟨hbr hr, ?_⟩
+  exact world_receivership_withdraw_needs_positive_price ho hr
 
 end whole_instructions
 
